@@ -43,7 +43,8 @@ PINNED = {
             "world": dict(_PIN_BASE, ndim=3, shape=[2, 6, 6], seg=True, nodes={"1": {"t": 0, "pix": [[1, 1]]}, "2": {"t": 1, "pix": [[2, 2]]}}, edges=[[1, 2]], subscribers=0),
             "ops": [{"op": "disable", "keys": ["@pos"], "unknown": False, "allow_ids": False}, {"op": "reimport", "fmt": "internal"}],
         },
-        # D21: the empty solution (reachable: delete every node) and the CSV / GEFF channel
+        # the empty solution (reachable: delete every node): CSV round trip (D21-csv, repaired
+        # by fec9fa0) and the GEFF channel (known finding D21-geff)
         {
             "world": dict(_PIN_BASE, ndim=3, shape=[2, 6, 6], seg=True, nodes={}, edges=[], subscribers=0),
             "ops": [{"op": "reimport", "fmt": "internal", "allow_empty": True}, {"op": "reimport", "fmt": "csv", "allow_empty": True}],
